@@ -5,6 +5,7 @@ HARNESSES = [
     dict(name="c04", kind="sched", srcs=["harness/c04/c04_term.cpp"]),
     dict(name="c06", kind="schedn", srcs=["harness/c06/c06_locks.cpp"]),
     dict(name="c10", kind="sched", srcs=["harness/c10/c10_morph.cpp"]),
+    dict(name="dharness", kind="dist", srcs=["harness/dist/dharness.cpp"]),
     dict(name="c05", kind="sched", srcs=["harness/c05/c05_barrier.cpp"]),
     dict(name="c16", kind="native", srcs=["harness/c16/c16_pstl.cpp"]),
     dict(name="c16e1", kind="sched", srcs=["harness/c16/c16_pstl.cpp"], defs=["-DC16_E1"]),
@@ -244,6 +245,22 @@ PROPS = {
         level_note="trusted: libstdc++ algorithms as reference; unit c16 runs real threads (schedules sampled), unit c16e1 runs sort/partition/find_if/partial_sum with <=5000 elements under gsched-controlled schedules of the block-claiming helpers; <=16 threads (partial_sum's empty-block path needs more blocks than this machine has threads)",
         assumptions=["the 3-argument ParallelSTL::accumulate is ambiguous with std::accumulate via ADL when <numeric> is visible; the 4-argument form is tested",
                      "dyadic doubles for floating-point accumulation"],
+    ),
+    "C19": dict(
+        variants={"native": ["galois_shmem", "galois_dist_async", "galois_gluon", "distbench"]},
+        extra_harnesses=["dharness"],
+        units=[dict(type="hyp", harness="py:c19", quick=240, thorough=5000)],
+        engine="hypothesis over MPI subprocesses",
+        technique="property-based testing: Hypothesis-generated graphs (isolated nodes, skew, fewer nodes than hosts, up to 300 nodes), host counts 1..4, all 11 partition policies, CSR and CSC variants; a distributed harness built like a lonestar app is run under mpirun and every host's dump (local edges, id maps, master/mirror lists, thread ranges) is checked against the input",
+        rule=("cases = (graph, hosts in 1..4, policy in oec|iec|hovc|hivc|cvc|cvc-iec|ginger-o|ginger-i|fennel-o|fennel-i|sugar-o, CSR or CSC "
+              "variant, 1-2 threads per host); non-trivial = >=2 hosts AND >=1 node has a mirror; distinct = sha1 of the case"),
+        level_text=("Oracle: union of local edge multisets == input (reversed for CSC), data intact; exactly one owner per node and "
+                    "getHostID agrees everywhere; id maps mutually inverse; masters precede mirrors; nodes with edges first; mirror list of "
+                    "h for p == non-owned nodes of h owned by p == master list of p for h (same order, via the GALOIS_VERIF accessor); "
+                    "oec/iec structural promises; per-thread ranges partition the all/master/with-edges ranges. Exploration only."),
+        level_note="trusted: the Python .gr writer; OpenMPI on one machine; the harness' dump code; cartesian-cut block promises are not checked",
+        assumptions=["inputs are written by our own codec (CSR file plus transposed file, both always supplied)",
+                     "read-balancing options and masters-block files are not generated"],
     ),
 }
 
